@@ -87,7 +87,7 @@ def all_vectors():
 def read_input(u, opts, infer):
     """-> (record, had_protocol) or raises Unparseable."""
     if opts["infer_redirection"]:
-        u = infer(u)
+        u = infer(re.sub(r"[\x00-\x1f\x7f-\x9f]", "", u).strip())  # the documented cleaning comes before anything else
     cu = clean(u, "https")  # normalize_url assumes https for a url without scheme (like canonicalize_url)
     had = bool(PROTO_RE.match(re.sub(r"[\x00-\x1f\x7f-\x9f]", "", u).strip()))
     rec = R(cu)
